@@ -25,7 +25,8 @@ from engine import Violation, CaseResult
 
 PROP = "C13"
 
-NAMES = ("a.log", "bb.log", "a_much_longer_name_than_the_others.log", "x y.log", "é.log", "日本語.log", "Z.LOG", "n", "m.txt")
+NAMES = ("a.log", "bb.log", "a_much_longer_name_than_the_others.log", "x y.log", "é.log", "日本語.log", "Z.LOG", "n", "m.txt",
+         "disk%used.log", "App%4Operational.log", "100%.log", "back\\slash{0}.log")     # (names are data, never a format)
 TZ_LOCAL = (("UTC", 0), ("XYZ5", -300), ("<+0545>-5:45", 345), ("ABC-9", 540), ("<-0330>3:30", -210))
 TZ_ARG = (("+05:30", 330), ("-0800", -480), ("+09", 540), ("+00:00", 0), ("-03:30", -210), ("Z", 0), ("+1400", 840))
 FORMATS = (None, None, "%Y-%m-%d %H:%M:%S", "%s", "%Y%m%dT%H%M%S%.6f%:z", "%F %T%.3f %z", "%a %b %e %I:%M:%S %p %y (%j)",
